@@ -87,24 +87,17 @@ impl V {
             Some(pgref::unhex(&self.hex).unwrap_or_default().repeat(self.n))
         }
     }
-    fn class(&self) -> String {
+    /// coarse size class (signature feature); rank orders the classes
+    fn class(&self) -> (u8, &'static str) {
         if self.null {
-            return "null".into();
+            return (0, "null");
         }
-        let l = self.hex.len() / 2 * self.n;
-        match l {
-            0 => "empty".into(),
-            1..=254 => {
-                if self.hex.contains("00") {
-                    "short_with_nul".into()
-                } else {
-                    "short".into()
-                }
-            }
-            255 => "255".into(),
-            256 => "256".into(),
-            65536 => "64k".into(),
-            _ => "big".into(),
+        match self.hex.len() / 2 * self.n {
+            0 => (1, "empty"),
+            1..=254 => (2, "short"),
+            255 => (3, "255"),
+            256 => (4, "256"),
+            _ => (5, "big"),
         }
     }
 }
@@ -224,10 +217,9 @@ impl MsgSpec {
             MsgSpec::ParameterStatus { name, value } => ("n/a".to_string(), longest(vec![name, value])),
             MsgSpec::RowDescription { fields } => (n_class(fields.len()), longest(fields.iter().map(|f| &f.name).collect())),
             MsgSpec::DataRow { values } => {
-                let mut cs: Vec<String> = values.iter().map(|v| v.class()).collect();
-                cs.sort();
-                cs.dedup();
-                (n_class(values.len()), if cs.is_empty() { "n/a".into() } else { cs.join("+") })
+                // class of the largest value (NULL < empty < short < 255 < 256 < big)
+                let c = values.iter().map(|v| v.class()).max().map(|(_, n)| n.to_string()).unwrap_or_else(|| "n/a".into());
+                (n_class(values.len()), c)
             }
             MsgSpec::CommandComplete { tag } => ("n/a".to_string(), longest(vec![tag])),
             MsgSpec::ErrorResponse { fields } | MsgSpec::NoticeResponse { fields } => (n_class(fields.len()), longest(fields.iter().map(|(_, s)| s).collect())),
